@@ -361,3 +361,37 @@ V("C10", "logout-nameid-lowercased", "detect", "LogoutRequest NameID lower-cased
   needs="signed LogoutRequest with a mixed-case NameID")
 V("C01", "benign-reset-make", "silent", "assertion lists reset with make() instead of empty literals",
   (DR, "	decodedResponse.Assertions = []types.Assertion{}\n	decodedResponse.EncryptedAssertions = []types.EncryptedAssertion{}\n", "	decodedResponse.Assertions = make([]types.Assertion, 0, 2)\n	decodedResponse.EncryptedAssertions = make([]types.EncryptedAssertion, 0)\n"))
+
+# ---------------- generalised recognisers must still detect breakage written in the new idioms
+HEXIMP = (UU, "import (\n	\"crypto/rand\"\n	\"fmt\"\n)", "import (\n	\"crypto/rand\"\n	\"encoding/hex\"\n)")
+V("C18", "hexbuf-groups-swapped", "detect", "String() via hex.Encode into a buffer with the 2nd and 3rd groups swapped",
+  HEXIMP,
+  (UU, "	return fmt.Sprintf(\"%x-%x-%x-%x-%x\", u[:4], u[4:6], u[6:8], u[8:10], u[10:])",
+       "	var dst [36]byte\n	hex.Encode(dst[0:8], u[:4])\n	dst[8] = '-'\n	hex.Encode(dst[9:13], u[6:8])\n	dst[13] = '-'\n	hex.Encode(dst[14:18], u[4:6])\n	dst[18] = '-'\n	hex.Encode(dst[19:23], u[8:10])\n	dst[23] = '-'\n	hex.Encode(dst[24:36], u[10:])\n	return string(dst[:])"))
+V("C18", "hexbuf-missing-dash", "detect", "String() via hex.Encode: one separator position never written",
+  HEXIMP,
+  (UU, "	return fmt.Sprintf(\"%x-%x-%x-%x-%x\", u[:4], u[4:6], u[6:8], u[8:10], u[10:])",
+       "	var dst [36]byte\n	hex.Encode(dst[0:8], u[:4])\n	dst[8] = '-'\n	hex.Encode(dst[9:13], u[4:6])\n	dst[13] = '-'\n	hex.Encode(dst[14:18], u[6:8])\n	hex.Encode(dst[19:23], u[8:10])\n	dst[23] = '-'\n	hex.Encode(dst[24:36], u[10:])\n	return string(dst[:])"))
+V("C18", "benign-hex-concat", "silent", "String() as a concatenation of hex.EncodeToString groups",
+  HEXIMP,
+  (UU, "	return fmt.Sprintf(\"%x-%x-%x-%x-%x\", u[:4], u[4:6], u[6:8], u[8:10], u[10:])",
+       "	return hex.EncodeToString(u[:4]) + \"-\" + hex.EncodeToString(u[4:6]) + \"-\" + hex.EncodeToString(u[6:8]) + \"-\" + hex.EncodeToString(u[8:10]) + \"-\" + hex.EncodeToString(u[10:])"))
+V("C14", "builder-relay-first", "detect", "signing string written straight-line into a strings.Builder with RelayState before SAMLRequest",
+  (BR, "	var params [][2]string\n	if relayState == \"\" {\n		params = [][2]string{{\"SAMLRequest\", samlRequest}, {\"SigAlg\", sigAlg}}\n	} else {\n		params = [][2]string{{\"SAMLRequest\", samlRequest}, {\"RelayState\", relayState}, {\"SigAlg\", sigAlg}}\n	}\n\n	var buf bytes.Buffer\n	for _, kv := range params {\n		k, v := kv[0], kv[1]\n		if buf.Len() > 0 {\n			buf.WriteByte('&')\n		}\n		buf.WriteString(url.QueryEscape(k) + \"=\" + url.QueryEscape(v))\n	}\n	return buf.String()",
+       "	var sb strings.Builder\n	if relayState != \"\" {\n		sb.WriteString(\"RelayState=\" + url.QueryEscape(relayState) + \"&\")\n	}\n	sb.WriteString(\"SAMLRequest=\" + url.QueryEscape(samlRequest))\n	sb.WriteString(\"&SigAlg=\" + url.QueryEscape(sigAlg))\n	return sb.String()"),
+  (BR, "	\"net/url\"\n", "	\"net/url\"\n	\"strings\"\n"),
+  needs="signed redirect with a relay state")
+V("C14", "builder-unescaped-value", "detect", "straight-line strings.Builder version that forgets to escape the relay state",
+  (BR, "	var params [][2]string\n	if relayState == \"\" {\n		params = [][2]string{{\"SAMLRequest\", samlRequest}, {\"SigAlg\", sigAlg}}\n	} else {\n		params = [][2]string{{\"SAMLRequest\", samlRequest}, {\"RelayState\", relayState}, {\"SigAlg\", sigAlg}}\n	}\n\n	var buf bytes.Buffer\n	for _, kv := range params {\n		k, v := kv[0], kv[1]\n		if buf.Len() > 0 {\n			buf.WriteByte('&')\n		}\n		buf.WriteString(url.QueryEscape(k) + \"=\" + url.QueryEscape(v))\n	}\n	return buf.String()",
+       "	var sb strings.Builder\n	sb.WriteString(\"SAMLRequest=\" + url.QueryEscape(samlRequest))\n	if relayState != \"\" {\n		sb.WriteString(\"&RelayState=\" + relayState)\n	}\n	sb.WriteString(\"&SigAlg=\" + url.QueryEscape(sigAlg))\n	return sb.String()"),
+  (BR, "	\"net/url\"\n", "	\"net/url\"\n	\"strings\"\n"),
+  needs="relay state containing a reserved character")
+V("C06", "collected-values-lowercased", "detect", "audiences collected into a list with ToLower, membership tested on the list",
+  (VA, "		matched := false\n\n		for _, audience := range audienceRestriction.Audiences {\n			if audience.Value == sp.AudienceURI {\n				matched = true\n				break\n			}\n		}\n\n		if !matched {",
+       "		values := []string{}\n		for _, audience := range audienceRestriction.Audiences {\n			values = append(values, strings.ToLower(audience.Value))\n		}\n		matched := false\n		for _, v := range values {\n			if v == sp.AudienceURI {\n				matched = true\n				break\n			}\n		}\n\n		if !matched {"),
+  (VA, "import (\n	\"fmt\"\n", "import (\n	\"fmt\"\n	\"strings\"\n"),
+  needs="audience differing only in case")
+V("C06", "collected-values-skip-first", "detect", "audiences collected from index 1 on, membership tested on the list",
+  (VA, "		matched := false\n\n		for _, audience := range audienceRestriction.Audiences {\n			if audience.Value == sp.AudienceURI {\n				matched = true\n				break\n			}\n		}\n\n		if !matched {",
+       "		values := []string{}\n		for i := 1; i < len(audienceRestriction.Audiences); i++ {\n			values = append(values, audienceRestriction.Audiences[i].Value)\n		}\n		matched := false\n		for _, v := range values {\n			if v == sp.AudienceURI {\n				matched = true\n				break\n			}\n		}\n\n		if !matched {"),
+  needs="matching audience in first position")
